@@ -2,6 +2,7 @@ package mon
 
 import (
 	"fmt"
+	"math"
 	"strings"
 
 	at "github.com/DanielSvub/anytype"
@@ -148,12 +149,70 @@ func runC01(c *fw.Ctx) {
 	largeFlatTrees(c, func(tree *spec.Spec, r *rng.R) {
 		guard(c, func() string { return spec.Trunc(describeTree(tree), 300) }, func() { c01Case(c, tree, r) })
 	})
+	numericOrigins(c, func(tree *spec.Spec, r *rng.R) {
+		guard(c, func() string { return spec.Trunc(describeTree(tree), 3000) }, func() { c01Case(c, tree, r) })
+	})
 	historyCases(c, "history", 600, 60000, probeRoundTrip)
+}
+
+// givenReal, when set, is the container the next tree-based case works on instead of building one from the tree.
+var givenReal any
+
+func buildOrGiven(r *rng.R, tree *spec.Spec) any {
+	if givenReal != nil {
+		return givenReal
+	}
+	return drive.Build(r, tree)
+}
+
+// numericOrigins: containers whose numbers were handed over in other Go types, among them unsigned values beyond the int
+// range (what the library makes of those is stated nowhere, so the reference is whatever the container holds afterwards,
+// read back element by element; a constructor that refuses such a value is fine). What a container prints has to be
+// what it holds, wherever its content came from.
+func numericOrigins(c *fw.Ctx, judge func(tree *spec.Spec, r *rng.R)) {
+	vals := []any{uint64(math.MaxUint64), uint64(1) << 63, uint64(1)<<63 + 12345, uint64(math.MaxInt64), uint(math.MaxUint), uint(math.MaxUint/2 + 1), uint32(math.MaxUint32), uint32(1) << 31,
+		int64(math.MinInt64), int64(1)<<40 + 7, -(int64(1) << 40), int32(math.MinInt32), uint16(65535), uint8(200), int8(-128), float32(0.1), float32(3.4e38), float32(1e-45), uint64(1) << 53, uint64(1)<<53 + 1}
+	var builders []func() any
+	for _, v := range vals {
+		v := v
+		builders = append(builders,
+			func() any { return at.NewList(v) },
+			func() any { return at.NewObject("k", v) },
+			func() any { return at.NewList(1, []any{v, map[string]any{"deep": v}}, 2.5) },
+			func() any { return at.NewObject().SetTF(".a#1.b", v) })
+	}
+	builders = append(builders,
+		func() any { return at.NewList(vals...) },
+		func() any { return at.NewListFrom(vals) },
+		func() any { return at.NewList().Add(vals...).Insert(3, vals[0]).Replace(0, vals[1]) },
+		func() any {
+			m := map[string]any{}
+			for i, v := range vals {
+				m[fmt.Sprintf("k%d", i)] = v
+			}
+			return at.NewObjectFrom(m)
+		})
+	c.Cases("numeric-origins", len(builders), true, func(i int, r *rng.R) {
+		var real any
+		if p, _ := drive.Protect(func() { real = builders[i]() }); p {
+			c.Count("numeric_origins_refused_by_the_library")
+			return
+		}
+		w, err := drive.Walk(real)
+		if err != nil {
+			c.Violate("container-unwalkable", fmt.Sprintf("numeric-origins builder %d", i), "a consistent container", err.Error())
+			return
+		}
+		c.Count("numeric_origin_containers")
+		givenReal = real
+		defer func() { givenReal = nil }()
+		judge(w.ToSpec(), r)
+	})
 }
 
 func c01Case(c *fw.Ctx, tree *spec.Spec, r *rng.R) {
 	noteTree(c, tree)
-	real := drive.Build(r, tree)
+	real := buildOrGiven(r, tree)
 	text := stringOf(real)
 	c.MarkInput(text)
 	if c.WantSample() && tree.Size() > 3 && tree.Size() < 30 {
@@ -292,10 +351,10 @@ func checkJSONText(c *fw.Ctx, what string, text string, tree *spec.Spec, in func
 }
 
 func runC02(c *fw.Ctx) {
-	forEachOutputTree(c, 4000, 2000000, func(tree *spec.Spec, r *rng.R) {
+	c02Tree := func(tree *spec.Spec, r *rng.R) {
 		guard(c, func() string { return describeTree(tree) }, func() {
 			noteTree(c, tree)
-			real := drive.Build(r, tree)
+			real := buildOrGiven(r, tree)
 			text := stringOf(real)
 			c.MarkInput(text)
 			if c.WantSample() && tree.Size() > 3 && tree.Size() < 30 {
@@ -314,7 +373,9 @@ func runC02(c *fw.Ctx) {
 				}
 			}
 		})
-	})
+	}
+	forEachOutputTree(c, 4000, 2000000, c02Tree)
+	numericOrigins(c, c02Tree)
 	historyCases(c, "history", 600, 60000, probeJSONText)
 	for _, gen := range []func(*fw.Ctx, func(*spec.Spec, *rng.R)){deepOutputTrees, largeFlatTrees} {
 		gen(c, func(tree *spec.Spec, r *rng.R) {
@@ -357,6 +418,9 @@ func selfC02(s *fw.SelfCheck) {
 
 func runC16(c *fw.Ctx) {
 	forEachOutputTree(c, 1000, 400000, func(tree *spec.Spec, r *rng.R) {
+		guard(c, func() string { return describeTree(tree) }, func() { c16Case(c, tree, r) })
+	})
+	numericOrigins(c, func(tree *spec.Spec, r *rng.R) {
 		guard(c, func() string { return describeTree(tree) }, func() { c16Case(c, tree, r) })
 	})
 	historyCases(c, "history", 400, 40000, probeFormat)
@@ -479,7 +543,7 @@ func stringCanon(real any) string {
 
 func c16Case(c *fw.Ctx, tree *spec.Spec, r *rng.R) {
 	noteTree(c, tree)
-	real := drive.Build(r, tree)
+	real := buildOrGiven(r, tree)
 	plain := stringOf(real)
 	before := stringCanon(real)
 	for indent := 0; indent <= 10; indent++ {
